@@ -90,12 +90,15 @@ structure Disarmed (w w' : World) : Prop where
   connReqs : w'.connReqs = w.connReqs
   req : ∀ rid, (w'.req rid).dfd = (w.req rid).dfd ∧ (w'.req rid).msgId = (w.req rid).msgId ∧
     ((w.req rid).alarm = none → (w'.req rid).alarm = none)
+  /-- the request objects keep their packet bytes, kind and QoS (only `alarm` is cleared) -/
+  same : ∀ rid, (w'.req rid).encoded = (w.req rid).encoded ∧ (w'.req rid).kind = (w.req rid).kind ∧ (w'.req rid).qos = (w.req rid).qos
 
-theorem Disarmed.refl (w : World) : Disarmed w w := ⟨rfl, rfl, rfl, rfl, fun _ => ⟨rfl, rfl, id⟩⟩
+theorem Disarmed.refl (w : World) : Disarmed w w := ⟨rfl, rfl, rfl, rfl, fun _ => ⟨rfl, rfl, id⟩, fun _ => ⟨rfl, rfl, rfl⟩⟩
 
 theorem Disarmed.trans {w1 w2 w3 : World} (a : Disarmed w1 w2) (b : Disarmed w2 w3) : Disarmed w1 w3 :=
   ⟨by rw [b.protos, a.protos], by rw [b.ents, a.ents], by rw [b.fired, a.fired], by rw [b.connReqs, a.connReqs],
-   fun rid => ⟨by rw [(b.req rid).1, (a.req rid).1], by rw [(b.req rid).2.1, (a.req rid).2.1], fun h => (b.req rid).2.2 ((a.req rid).2.2 h)⟩⟩
+   fun rid => ⟨by rw [(b.req rid).1, (a.req rid).1], by rw [(b.req rid).2.1, (a.req rid).2.1], fun h => (b.req rid).2.2 ((a.req rid).2.2 h)⟩,
+   fun rid => ⟨by rw [(b.same rid).1, (a.same rid).1], by rw [(b.same rid).2.1, (a.same rid).2.1], by rw [(b.same rid).2.2, (a.same rid).2.2]⟩⟩
 
 theorem cancelLoop_inv (p : Nat) (ppr : Proto) (hnl : ppr.lost = false) :
     ∀ (l : List Ent) {w : World}, WInvX (some p) w → w.protos.get? p = some ppr → (∀ e ∈ l, e ∈ w.ents ∧ e.addr = ppr.addr) →
@@ -138,11 +141,15 @@ theorem cancelLoop_inv (p : Nat) (ppr : Proto) (hnl : ppr.lost = false) :
       have hreq : ∀ r, (disarm w e t).req r = if e.rid = r then { w.req e.rid with alarm := none } else w.req r :=
         fun r => req_set w e.rid _ r _ rfl
       have hdis : Disarmed w (disarm w e t) := by
-        refine ⟨rfl, rfl, rfl, rfl, fun rid => ?_⟩
-        rw [hreq]
-        by_cases hr : e.rid = rid
-        · subst hr; simp
-        · simp [hr]
+        refine ⟨rfl, rfl, rfl, rfl, fun rid => ?_, fun rid => ?_⟩
+        · rw [hreq]
+          by_cases hr : e.rid = rid
+          · subst hr; simp
+          · simp [hr]
+        · rw [hreq]
+          by_cases hr : e.rid = rid
+          · subst hr; simp
+          · simp [hr]
       obtain ⟨r1, r2, r3, r4⟩ := ih hD hpp (fun e' he' => hl e' (by simp [he']))
       refine ⟨r1, r2, hdis.trans r3, fun e' he' => ?_⟩
       simp only [List.mem_cons] at he'
@@ -218,14 +225,15 @@ theorem failLoop_inv {x : Option Nat} (box : Box) (hbq : box ≠ .queue) (reason
 
 theorem drainQueue_inv {x : Option Nat} (p : Nat) (reason : Err) (fuel : Nat) :
     ∀ {w : World}, WInvX x w →
-    (drainQueue p reason fuel w).2 = none ∧ WInvX x (drainQueue p reason fuel w).1 ∧ Removed w (drainQueue p reason fuel w).1 := by
+    (drainQueue p reason fuel w).2 = none ∧ WInvX x (drainQueue p reason fuel w).1 ∧ Removed w (drainQueue p reason fuel w).1 ∧
+    Ents.items (drainQueue p reason fuel w).1.ents (w.paddr p) .queue = (Ents.items w.ents (w.paddr p) .queue).drop fuel := by
   induction fuel with
-  | zero => intro w h; exact ⟨rfl, h, Removed.refl w⟩
+  | zero => intro w h; exact ⟨rfl, h, Removed.refl w, rfl⟩
   | succ f ih =>
     intro w h
     simp only [drainQueue, read_apply]
     cases hit : Ents.items w.ents (w.paddr p) .queue with
-    | nil => exact ⟨rfl, h, Removed.refl w⟩
+    | nil => exact ⟨rfl, h, Removed.refl w, by show Ents.items w.ents _ _ = _; rw [hit]; rfl⟩
     | cons e rest =>
       simp only
       have hein : e ∈ Ents.items w.ents (w.paddr p) .queue := by rw [hit]; simp
@@ -240,8 +248,13 @@ theorem drainQueue_inv {x : Option Nat} (p : Nat) (reason : Err) (fuel : Nat) :
       · simp only [hm0, ne_eq, not_true_eq_false, ↓reduceIte]
         have s1 : Step.ok (w.setEnts fun es => Ents.dropFirst es (w.paddr p) .queue) = (_, none) := rfl
         rw [seq_ok s1]
-        obtain ⟨r1, r2, r3⟩ := ih h1
-        exact ⟨r1, r2, hrem1.trans r3⟩
+        obtain ⟨r1, r2, r3, r4⟩ := ih h1
+        refine ⟨r1, r2, hrem1.trans r3, ?_⟩
+        have hpa' : (w.setEnts fun es => Ents.dropFirst es (w.paddr p) .queue).paddr p = w.paddr p := rfl
+        rw [hpa'] at r4
+        rw [r4]
+        show (Ents.items (Ents.dropFirst w.ents (w.paddr p) .queue) (w.paddr p) .queue).drop f = _
+        rw [hd2]; rfl
       · simp only [ne_eq, hm0, not_false_eq_true, ↓reduceIte]
         obtain ⟨d, hd⟩ : ∃ d, (w.req e.rid).dfd = some d := by
           cases hdd : (w.req e.rid).dfd with
@@ -267,10 +280,15 @@ theorem drainQueue_inv {x : Option Nat} (p : Nat) (reason : Err) (fuel : Nat) :
             = (fireD (w.setEnts fun es => Ents.dropFirst es (w.paddr p) .queue) d (.fired d (.fail reason)), none) := by
           rw [hd]; exact fireDfd_unfired _ d _ hdf.2
         rw [seq_ok s1]
-        obtain ⟨r1, r2, r3⟩ := ih h2
+        obtain ⟨r1, r2, r3, r4⟩ := ih h2
         have hrem2 : Removed (w.setEnts fun es => Ents.dropFirst es (w.paddr p) .queue)
             (fireD (w.setEnts fun es => Ents.dropFirst es (w.paddr p) .queue) d (.fired d (.fail reason))) := ⟨rfl, rfl, rfl, rfl, fun y hy => hy⟩
-        exact ⟨r1, r2, (hrem1.trans hrem2).trans r3⟩
+        refine ⟨r1, r2, (hrem1.trans hrem2).trans r3, ?_⟩
+        have hpa' : (fireD (w.setEnts fun es => Ents.dropFirst es (w.paddr p) .queue) d (.fired d (.fail reason))).paddr p = w.paddr p := rfl
+        rw [hpa'] at r4
+        rw [r4]
+        show (Ents.items (Ents.dropFirst w.ents (w.paddr p) .queue) (w.paddr p) .queue).drop f = _
+        rw [hd2]; rfl
 
 /-! ### MQTTProtocol.doConnectionLost -/
 
@@ -284,21 +302,31 @@ def NoSub (w : World) (a : Nat) : Prop := ∀ e ∈ w.ents, e.addr = a → e.box
 
 theorem failWindow_inv {x : Option Nat} {w : World} (h : WInvX x w) (p : Nat) (isSub : Bool) (reason : Err) (hq : Quiet w (w.paddr p)) :
     (failWindow p isSub reason w).2 = none ∧ WInvX x (failWindow p isSub reason w).1 ∧ Removed w (failWindow p isSub reason w).1 ∧
-    ∀ y ∈ (failWindow p isSub reason w).1.ents, y.addr = w.paddr p → y.box ≠ (if isSub then .sub else .unsub) := by
+    (∀ y ∈ (failWindow p isSub reason w).1.ents, y.addr = w.paddr p → y.box ≠ (if isSub then .sub else .unsub)) ∧
+    (∀ y, y ∈ (failWindow p isSub reason w).1.ents ↔ y ∈ w.ents ∧ ¬ (y.addr = w.paddr p ∧ y.box = (if isSub then .sub else .unsub))) := by
   have hbq : (if isSub then Box.sub else Box.unsub) ≠ .queue := by cases isSub <;> simp
   obtain ⟨r1, r2, r3, r4⟩ := failLoop_inv (x := x) _ hbq reason (Ents.items w.ents (w.paddr p) (if isSub then .sub else .unsub)) h
     (fun e he => by
       obtain ⟨a, b, c⟩ := Ents.mem_items.mp he
       exact ⟨a, c, hq e a b (by rw [c]; exact hbq)⟩)
     (Ents.items_nodup h.nodup _ _)
-  refine ⟨r1, r2, r3, fun y hy hya hyb => ?_⟩
-  exact ((r4 y).mp hy).2 (Ents.mem_items.mpr ⟨((r4 y).mp hy).1, hya, hyb⟩)
+  refine ⟨r1, r2, r3, fun y hy hya hyb => ?_, fun y => ?_⟩
+  · exact ((r4 y).mp hy).2 (Ents.mem_items.mpr ⟨((r4 y).mp hy).1, hya, hyb⟩)
+  · refine (r4 y).trans ?_
+    constructor
+    · rintro ⟨a, b⟩; exact ⟨a, fun hc => b (Ents.mem_items.mpr ⟨a, hc.1, hc.2⟩)⟩
+    · rintro ⟨a, b⟩; exact ⟨a, fun hc => b ⟨(Ents.mem_items.mp hc).2.1, (Ents.mem_items.mp hc).2.2⟩⟩
 
 theorem doConnectionLost_inv {w : World} (p : Nat) (ppr : Proto) (h : WInvX (some p) w) (hpp : w.protos.get? p = some ppr)
     (hnl : ppr.lost = false) (reason : Err) :
     (doConnectionLost p reason w).2 = none ∧ WInvX (some p) (doConnectionLost p reason w).1 ∧
     (doConnectionLost p reason w).1.protos = w.protos ∧ Quiet (doConnectionLost p reason w).1 ppr.addr ∧
-    NoSub (doConnectionLost p reason w).1 ppr.addr := by
+    NoSub (doConnectionLost p reason w).1 ppr.addr ∧
+    (ppr.cleanStart = true → ∀ y ∈ (doConnectionLost p reason w).1.ents, y.addr ≠ ppr.addr) ∧
+    (ppr.cleanStart = false →
+      ∀ y, y ∈ (doConnectionLost p reason w).1.ents ↔ y ∈ w.ents ∧ ¬ (y.addr = ppr.addr ∧ (y.box = .sub ∨ y.box = .unsub))) ∧
+    (∀ rid, ((doConnectionLost p reason w).1.req rid).dfd = (w.req rid).dfd ∧ ((doConnectionLost p reason w).1.req rid).msgId = (w.req rid).msgId ∧
+      ((doConnectionLost p reason w).1.req rid).encoded = (w.req rid).encoded ∧ ((doConnectionLost p reason w).1.req rid).kind = (w.req rid).kind) := by
   have hpa : w.paddr p = ppr.addr := by simp [World.paddr, getD_of_get? hpp]
   have hitems : ∀ (b : Box) (w' : World), w'.ents = w.ents → ∀ e ∈ Ents.items w.ents ppr.addr b, e ∈ w'.ents ∧ e.addr = ppr.addr :=
     fun b w' hw' e he => ⟨hw' ▸ (Ents.mem_items.mp he).1, (Ents.mem_items.mp he).2.1⟩
@@ -336,17 +364,17 @@ theorem doConnectionLost_inv {w : World} (p : Nat) (ppr : Proto) (h : WInvX (som
     | pub => exact (e3.req _).2.2 (c4 y (Ents.mem_items.mpr ⟨hy, hya, hb⟩))
     | rel => exact e4 y (Ents.mem_items.mpr ⟨hy, hya, hb⟩)
   -- the two failure loops
-  obtain ⟨f1, f2, f3, f4⟩ := failWindow_inv e2 p true reason (hpa4 ▸ hq4)
+  obtain ⟨f1, f2, f3, f4, f5⟩ := failWindow_inv e2 p true reason (hpa4 ▸ hq4)
   obtain ⟨w5, hw5⟩ : ∃ w5, w5 = (failWindow p true reason w4).1 := ⟨_, rfl⟩
   have s5 : failWindow p true reason w4 = (w5, none) := by rw [hw5]; exact Prod.ext rfl f1
-  rw [← hw5] at f2 f3 f4
+  rw [← hw5] at f2 f3 f4 f5
   have hpp5 : w5.protos.get? p = some ppr := by rw [f3.protos]; exact hpp4
   have hpa5 : w5.paddr p = ppr.addr := by simp [World.paddr, getD_of_get? hpp5]
   have hq5 : Quiet w5 ppr.addr := hq4.removed f3
-  obtain ⟨g1, g2, g3, g4⟩ := failWindow_inv f2 p false reason (hpa5 ▸ hq5)
+  obtain ⟨g1, g2, g3, g4, g5⟩ := failWindow_inv f2 p false reason (hpa5 ▸ hq5)
   obtain ⟨w6, hw6⟩ : ∃ w6, w6 = (failWindow p false reason w5).1 := ⟨_, rfl⟩
   have s6 : failWindow p false reason w5 = (w6, none) := by rw [hw6]; exact Prod.ext rfl g1
-  rw [← hw6] at g2 g3 g4
+  rw [← hw6] at g2 g3 g4 g5
   have hpp6 : w6.protos.get? p = some ppr := by rw [g3.protos]; exact hpp5
   have hq6 : Quiet w6 ppr.addr := hq5.removed g3
   have hns6 : NoSub w6 ppr.addr := by
@@ -358,19 +386,50 @@ theorem doConnectionLost_inv {w : World} (p : Nat) (ppr : Proto) (h : WInvX (som
       simpa using this
   rw [seq_ok s5, seq_ok s6, read_apply, getD_of_get? hpp6]
   by_cases hcs : ppr.cleanStart = true
-  · simp only [hcs, ↓reduceIte]
+  · rw [if_pos hcs]
     obtain ⟨k1, k2, k3, k4, k5, k6, k7, k8, k9⟩ := purgeSession_inv g2 p reason
     obtain ⟨w7, hw7⟩ : ∃ w7, w7 = (purgeSession p reason w6).1 := ⟨_, rfl⟩
     have s7 : purgeSession p reason w6 = (w7, none) := by rw [hw7]; exact Prod.ext rfl k1
-    rw [← hw7] at k2 k3 k4 k5 k6 k7
+    rw [← hw7] at k2 k3 k4 k5 k6 k7 k8 k9
+    have hpa6 : w6.paddr p = ppr.addr := by simp [World.paddr, getD_of_get? hpp6]
     rw [seq_ok s7, read_apply]
     have hrem7 : Removed w6 w7 := ⟨k3, k4, k5, k6, k7⟩
-    obtain ⟨m1, m2, m3⟩ := drainQueue_inv (x := some p) p reason (Ents.count w7.ents (w7.paddr p) .queue) k2
+    obtain ⟨m1, m2, m3, m4⟩ := drainQueue_inv (x := some p) p reason (Ents.count w7.ents (w7.paddr p) .queue) k2
     have hrem := (hrem7.trans m3)
-    refine ⟨m1, m2, ?_, hq6.removed hrem, fun y hy hya => hns6 y (hrem.sub y hy) hya⟩
-    rw [hrem.protos, g3.protos, f3.protos, d4.protos]
-  · simp only [hcs, Bool.false_eq_true, ↓reduceIte]
-    exact ⟨rfl, g2, by show w6.protos = w.protos; rw [g3.protos, f3.protos, d4.protos], hq6, hns6⟩
+    have hreqs : ∀ (w' : World), w'.reqs = w6.reqs → ∀ rid, (w'.req rid).dfd = (w.req rid).dfd ∧ (w'.req rid).msgId = (w.req rid).msgId ∧
+        (w'.req rid).encoded = (w.req rid).encoded ∧ (w'.req rid).kind = (w.req rid).kind := by
+      intro w' hw' rid
+      rw [req_of_reqs hw', req_of_reqs g3.reqs, req_of_reqs f3.reqs]
+      exact ⟨(d4.req rid).1, (d4.req rid).2.1, (d4.same rid).1, (d4.same rid).2.1⟩
+    refine ⟨m1, m2, ?_, hq6.removed hrem, fun y hy hya => hns6 y (hrem.sub y hy) hya, fun _ y hy hya => ?_, (fun hc => by rw [hcs] at hc; cases hc),
+      hreqs _ hrem.reqs⟩
+    · rw [hrem.protos, g3.protos, f3.protos, d4.protos]
+    · have hpa7 : w7.paddr p = ppr.addr := by simp [World.paddr, World.proto, k4, hpp6]
+      have hy7 := m3.sub y hy
+      cases hb : y.box with
+      | sub => exact (hns6 y (hrem.sub y hy) hya).1 hb
+      | unsub => exact (hns6 y (hrem.sub y hy) hya).2 hb
+      | pub => exact k9 y hy7 (by rw [hya, hpa6]) (Or.inl hb) ((hq6.removed hrem7) y hy7 hya (by rw [hb]; simp))
+      | rel => exact k9 y hy7 (by rw [hya, hpa6]) (Or.inr hb) ((hq6.removed hrem7) y hy7 hya (by rw [hb]; simp))
+      | queue =>
+        have hin : y ∈ Ents.items (drainQueue p reason (Ents.count w7.ents (w7.paddr p) .queue) w7).1.ents (w7.paddr p) .queue :=
+          Ents.mem_items.mpr ⟨hy, by rw [hpa7]; exact hya, hb⟩
+        rw [m4] at hin
+        simp [Ents.count] at hin
+  · rw [if_neg hcs]
+    refine ⟨rfl, g2, by show w6.protos = w.protos; rw [g3.protos, f3.protos, d4.protos], hq6, hns6, fun hc => absurd hc hcs, fun _ y => ?_, ?_⟩
+    · show y ∈ w6.ents ↔ _
+      rw [g5 y, f5 y, hpa5, hpa4, d4.ents]
+      simp only [Bool.false_eq_true, ↓reduceIte]
+      constructor
+      · rintro ⟨⟨a, b⟩, c⟩
+        exact ⟨a, fun hc => by rcases hc.2 with hc2 | hc2; exact b ⟨hc.1, hc2⟩; exact c ⟨hc.1, hc2⟩⟩
+      · rintro ⟨a, b⟩
+        exact ⟨⟨a, fun hc => b ⟨hc.1, Or.inl hc.2⟩⟩, fun hc => b ⟨hc.1, Or.inr hc.2⟩⟩
+    · intro rid
+      show (w6.req rid).dfd = _ ∧ (w6.req rid).msgId = _ ∧ (w6.req rid).encoded = _ ∧ (w6.req rid).kind = _
+      rw [req_of_reqs g3.reqs, req_of_reqs f3.reqs]
+      exact ⟨(d4.req rid).1, (d4.req rid).2.1, (d4.same rid).1, (d4.same rid).2.1⟩
 
 /-! ### the protocol is marked lost; the notification is scheduled -/
 
@@ -467,19 +526,35 @@ theorem addOnDisc_inv {x : Option Nat} {w : World} (h : WInvX x w) (p : Nat) (pp
   · intro cr' hcq'; exact h.connReqRef p ppr cr' hpp hcq'
   · exact h.bufOk p ppr hpp
 
+/-- what connection loss leaves behind -/
+structure LostPost (w w' : World) (p : Nat) (ppr : Proto) : Prop where
+  /-- the protocol is idle and marked lost -/
+  proto : ∃ pr', w'.protos.get? p = some pr' ∧ pr'.state = .idle ∧ pr'.lost = true ∧ pr'.addr = ppr.addr
+  /-- C11: a clean session leaves no request of the address behind, in no container -/
+  clean : ppr.cleanStart = true → ∀ y ∈ w'.ents, y.addr ≠ ppr.addr
+  /-- C12: a persistent session keeps every publish of the address (held back, awaiting PUBACK/PUBREC, awaiting PUBCOMP)
+      and drops exactly the SUBSCRIBE/UNSUBSCRIBE requests; other addresses are untouched -/
+  persistent : ppr.cleanStart = false →
+    ∀ y, y ∈ w'.ents ↔ y ∈ w.ents ∧ ¬ (y.addr = ppr.addr ∧ (y.box = .sub ∨ y.box = .unsub))
+  /-- the request objects keep identifier, Deferred, packet bytes and kind -/
+  req : ∀ rid, (w'.req rid).dfd = (w.req rid).dfd ∧ (w'.req rid).msgId = (w.req rid).msgId ∧
+    (w'.req rid).encoded = (w.req rid).encoded ∧ (w'.req rid).kind = (w.req rid).kind
+  /-- no in-flight entry of the address keeps a retry timer -/
+  quiet : ∀ e ∈ w'.ents, e.addr = ppr.addr → e.box ≠ .queue → (w'.req e.rid).alarm = none
+
 /-- MQTTBaseProtocol.connectionLost, delivered once to a live protocol -/
-theorem connectionLost_inv {w : World} (h : WInv w) (p : Nat) (ppr : Proto) (hpp : w.protos.get? p = some ppr)
+theorem connectionLost_full {w : World} (h : WInv w) (p : Nat) (ppr : Proto) (hpp : w.protos.get? p = some ppr)
     (hnl : ppr.lost = false) (reason : Err) :
-    (connectionLost p reason w).2 = none ∧ WInv (connectionLost p reason w).1 := by
+    (connectionLost p reason w).2 = none ∧ WInv (connectionLost p reason w).1 ∧ LostPost w (connectionLost p reason w).1 p ppr := by
   simp only [connectionLost, read_apply, getD_of_get? hpp]
-  obtain ⟨w1, s1, i1, hpp1, _⟩ := stopLoop_inv (WInvX.weaken (x := some p) h) p ppr hpp
+  obtain ⟨w1, s1, i1, hpp1, e1, r1, _, _⟩ := stopLoop_inv (WInvX.weaken (x := some p) h) p ppr hpp
   erw [seq_ok s1]
-  obtain ⟨w2, s2, i2, hpp2, _⟩ := stopAlarm_inv i1 p { ppr with pingTimer := none } hpp1 ppr.pingAlarm rfl
+  obtain ⟨w2, s2, i2, hpp2, e2, r2, _, _⟩ := stopAlarm_inv i1 p { ppr with pingTimer := none } hpp1 ppr.pingAlarm rfl
   erw [seq_ok s2]
-  obtain ⟨a1, a2, a3, a4, a5⟩ := doConnectionLost_inv p _ i2 hpp2 hnl reason
+  obtain ⟨a1, a2, a3, a4, a5, a6, a7, a8⟩ := doConnectionLost_inv p _ i2 hpp2 hnl reason
   obtain ⟨w3, hw3⟩ : ∃ w3, w3 = (doConnectionLost p reason w2).1 := ⟨_, rfl⟩
   have s3 : doConnectionLost p reason w2 = (w3, none) := by rw [hw3]; exact Prod.ext rfl a1
-  rw [← hw3] at a2 a3 a4 a5
+  rw [← hw3] at a2 a3 a4 a5 a6 a7 a8
   rw [seq_ok s3]
   have hpp3 : w3.protos.get? p = some { ppr with pingTimer := none, pingAlarm := none } := by rw [a3]; exact hpp2
   have hL := lost_inv a2 p _ hpp3 rfl rfl a4
@@ -500,13 +575,31 @@ theorem connectionLost_inv {w : World} (h : WInv w) (p : Nat) (ppr : Proto) (hpp
       rcases hb with hb | hb
       · exact absurd hb this.1
       · exact absurd hb this.2
+  have hw2e : w2.ents = w.ents := by rw [e2, e1]
+  have hw2r : ∀ rid, w2.req rid = w.req rid := fun rid => by rw [req_of_reqs r2, req_of_reqs r1]
+  have hpost : ∀ wX : World, wX.ents = w3.ents → wX.reqs = w3.reqs →
+      wX.protos.get? p = some { ppr with pingTimer := none, pingAlarm := none, state := .idle, lost := true } → LostPost w wX p ppr := by
+    intro wX hxe hxr hxp
+    have hreq : ∀ rid, wX.req rid = w3.req rid := req_of_reqs hxr
+    refine ⟨⟨_, hxp, rfl, rfl, rfl⟩, ?_, ?_, ?_, ?_⟩
+    · intro hc y hy; rw [hxe] at hy; exact a6 hc y hy
+    · intro hc y; rw [hxe, a7 hc y, hw2e]
+    · intro rid; rw [hreq]
+      have := a8 rid
+      rw [hw2r] at this; exact this
+    · intro e he hea hq; rw [hxe] at he; rw [hreq]; exact a4 e he hea hq
   rw [getD_of_get? hpp4]
   split
   · have s5 : callLater (1 / 10 : Rat) (.onDisc p reason) (fun _ => Step.ok) (lostW w3 p { ppr with pingTimer := none, pingAlarm := none })
         = (addTimerW (lostW w3 p { ppr with pingTimer := none, pingAlarm := none })
             ((lostW w3 p { ppr with pingTimer := none, pingAlarm := none }).now + ticks (1 / 10)) (.onDisc p reason), none) := rfl
     rw [s5]
-    exact ⟨rfl, addOnDisc_inv hW p _ hpp4 _ p reason⟩
-  · exact ⟨rfl, hW⟩
+    exact ⟨rfl, addOnDisc_inv hW p _ hpp4 _ p reason, hpost _ rfl rfl hpp4⟩
+  · exact ⟨rfl, hW, hpost _ rfl rfl hpp4⟩
+
+theorem connectionLost_inv {w : World} (h : WInv w) (p : Nat) (ppr : Proto) (hpp : w.protos.get? p = some ppr)
+    (hnl : ppr.lost = false) (reason : Err) :
+    (connectionLost p reason w).2 = none ∧ WInv (connectionLost p reason w).1 :=
+  ⟨(connectionLost_full h p ppr hpp hnl reason).1, (connectionLost_full h p ppr hpp hnl reason).2.1⟩
 
 end Mqtt
